@@ -44,7 +44,8 @@ def _run(case):
                 data = p._get_render_data_(iteration=kind != "not-iteration")
                 if kind == "finalized":
                     data.finalize()
-            it = RenderIterator._from_render_data_(p, data, args, pad, case["loops"], cache)
+            it = RenderIterator._from_render_data_(p, data, args, pad, case["loops"], cache,
+                                                   finalize=case.get("finalize", True))
     except Exception as e:  # noqa: BLE001
         return {"verdict": type(e).__name__}
     res = {"verdict": "ok", "loop": it.loop, "cached": bool(it._cached)}
